@@ -143,7 +143,8 @@ class PaneBase:
         set_fields = getattr(self, PANE_SET_FIELDS)
         d = {
             field.name: getattr(self, field.name)
-            for field in self.__pane_info__.fields if field.name in set_fields
+            # (an `init=False` field assigned to, e.g. by `__post_init__`, is no constructor argument)
+            for field in self.__pane_info__.fields if field.name in set_fields and field.init
         }
         d.update(**changes)
         return self.__class__(**d)
